@@ -248,15 +248,24 @@ Fixpoint upd_nth {A} (n : nat) (f : A -> A) (l : list A) : list A :=
 
 Inductive gc_result := GcOk | GcErr.
 
+(** Ghost sequence numbers of the moved entries: the write-back is a new
+    acknowledged write of the LSM; [n] is the next unused number. *)
+Fixpoint renumber (n : N) (wb : list rec) : list rec :=
+  match wb with
+  | [] => []
+  | r :: wb' => {| r_key := r_key r; r_ver := r_ver r; r_val := r_val r; r_meta := r_meta r; r_exp := r_exp r; r_seq := n |}
+                :: renumber (n + 1) wb'
+  end.
+
 (** First half of rewrite: iterate the file and decide ([None] = an error aborted it). *)
-Definition gc_decide (now : N) (d : db) (bk fid : N) : option (list rec) :=
+Definition gc_decide (now : N) (d : db) (bk fid nseq : N) : option (list rec) :=
   match nth_error (d_vl d) (N.to_nat bk) with
   | None => None
   | Some b =>
       if b_active b <=? fid then None else
       match find_file b fid with
       | None => None
-      | Some f => gc_collect now (d_lsm d) bk fid (vf_recs f)
+      | Some f => option_map (renumber nseq) (gc_collect now (d_lsm d) bk fid (vf_recs f))
       end
   end.
 
@@ -271,15 +280,15 @@ Definition gc_finish (c : cfg) (d : db) (bk fid : N) (wb : list rec) : db * gc_r
   | _ => (db_write c d wb, GcErr)
   end.
 
-Definition rewrite (c : cfg) (now : N) (d : db) (bk fid : N) : db * gc_result :=
-  match gc_decide now d bk fid with
+Definition rewrite (c : cfg) (now : N) (d : db) (bk fid nseq : N) : db * gc_result :=
+  match gc_decide now d bk fid nseq with
   | None => (d, GcErr)
   | Some wb => if 62 <? N.of_nat (length wb) then (d, GcErr) else gc_finish c d bk fid wb
   end.
 
 (** rewrite with a writer's request landing at the yield point between the two halves *)
-Definition rewrite_race (c : cfg) (now : N) (d : db) (bk fid : N) (batch : list rec) : db * gc_result :=
-  match gc_decide now d bk fid with
+Definition rewrite_race (c : cfg) (now : N) (d : db) (bk fid nseq : N) (batch : list rec) : db * gc_result :=
+  match gc_decide now d bk fid nseq with
   | None => (db_write c d batch, GcErr)
   | Some wb => if 62 <? N.of_nat (length wb) then (db_write c d batch, GcErr)
                else gc_finish c (db_write c d batch) bk fid wb
